@@ -66,3 +66,39 @@ def c_false_init(self: Converter, records: list[Record], delimiter: str, strict:
     may_raise(ValueError)
     modifies(self)
     ensures(WF(self))
+
+
+@contract("api.Converter.from_priority_prefix_map#last_is_canonical", props=["SELFTEST"], expect="fail", returns="Converter")
+def c_false_priority(data: dict[str, list[str]], delimiter: str, strict: bool):
+    """Claims the LAST URI prefix of each list becomes canonical."""
+    requires(all(len(data[p]) > 0 for p in data))
+    may_raise(ValueError)
+    ensures(all(r.prefix in data and r.uri_prefix == data[r.prefix][len(data[r.prefix]) - 1] for r in result.records))
+
+
+@contract("api.Converter.from_reverse_prefix_map#longest_is_canonical", props=["SELFTEST"], expect="fail", returns="Converter")
+def c_false_reverse(reverse_prefix_map: dict[str, str], delimiter: str, strict: bool):
+    """Claims a longest URI prefix of each group is canonical."""
+    ensures(all(len(r.uri_prefix) >= len(u) for r in result.records for u in U(r)))
+
+
+@contract("api.upgrade_prefix_map#sorted_by_prefix", props=["SELFTEST"], expect="fail", returns="list[Record]")
+def c_false_upgrade(prefix_map: dict[str, str]):
+    """Claims the records come out ordered by CURIE prefix (they are ordered by URI prefix)."""
+    pure()
+    ensures(all(result[i].prefix <= result[j].prefix for i in range(len(result)) for j in range(len(result)) if i < j))
+
+
+@contract("api.Record.prefix_not_in_synonyms#accepts_everything", props=["SELFTEST"], expect="fail", returns="list[str]")
+def c_false_validator(v: list[str], values: dict[str, str]):
+    """Claims the validator never rejects."""
+    requires("prefix" in values)
+    pure()
+    ensures(result == v)
+
+
+@lemma("selftest.false_ctor_accepts_own_synonym", props=["SELFTEST"], expect="fail")
+def l_false_ctor(p: str, u: str):
+    """A record listing its canonical prefix among its synonyms would be constructed."""
+    r = Record(prefix=p, uri_prefix=u, prefix_synonyms=[p])
+    assert r.prefix == p
